@@ -16,6 +16,14 @@ package main
 //	extCases     the extension switch of ReadAmmoConfig
 //	decoderErrorUnused / decoderWeaklyTyped / decoderZeroFields / decoderTagName / pluginNameKey
 //	             the mapstructure flags of core/config.newDecoderConfig and the plugin `type` key
+//	hclFunctions / localsRoot / localsBlockTypes
+//	             buildHclContext: HCL function name -> go-cty stdlib function, the variable root of the locals;
+//	             localsSchema: the block types taken out of the body before it is decoded
+//	mergeMapsShape / localsMergeArgs / localsAccReassigned / localsCtxFrom / localsBlockCtx / localsBlockFilter /
+//	localBlockEvalUnder / parseHclBodyCtx / parseHclCalls
+//	             the data flow of decodeLocals, mergeMaps, decodeLocalBlock and ParseHCLFile (which map is written
+//	             over which, what the next context is built from, under which context attributes / the body are
+//	             evaluated)
 //
 // Anything that does not have the expected shape is a translation error (gen exits non-zero).
 
@@ -23,6 +31,7 @@ import (
 	"fmt"
 	"go/ast"
 	"go/constant"
+	"go/printer"
 	"go/types"
 	"reflect"
 	"sort"
@@ -616,6 +625,9 @@ func hclYamlExtra(t *tr) string {
 		g.fail("pluginconfig.PluginNameKey not found")
 	}
 
+	// ---- 8. locals and functions of the HCL front-end
+	localsFacts := hyLocalsFacts(g, p)
+
 	// ---- emit
 	b.WriteString("/-- every struct reachable from `config.AmmoHCL` (discovery order):\n⟨Go field, hcl name, hcl kind, optional in HCL, effective yaml.v2 key, omitempty, pointer, type⟩ -/\n")
 	b.WriteString("def hclStructs : List (String × List C16HField) := [\n")
@@ -650,6 +662,399 @@ func hclYamlExtra(t *tr) string {
 	b.WriteString("def decoderWeaklyTyped : Bool := " + flags["WeaklyTypedInput"] + "\n")
 	b.WriteString("def decoderZeroFields : Bool := " + flags["ZeroFields"] + "\n")
 	b.WriteString("def decoderTagName : String := " + flags["TagName"] + "\n")
-	b.WriteString("/-- `pluginconfig.PluginNameKey` -/\ndef pluginNameKey : String := " + nameKey + "\n")
+	b.WriteString("/-- `pluginconfig.PluginNameKey` -/\ndef pluginNameKey : String := " + nameKey + "\n\n")
+	b.WriteString(localsFacts)
+	return b.String()
+}
+
+func hyNodeString(p *packages.Package, n ast.Node) string {
+	if n == nil {
+		return ""
+	}
+	var buf strings.Builder
+	_ = printer.Fprint(&buf, p.Fset, n)
+	return strings.Join(strings.Fields(buf.String()), "")
+}
+
+// hyObj: the object an identifier expression denotes (nil when e is not an identifier)
+func hyObj(p *packages.Package, e ast.Expr) types.Object {
+	id, ok := e.(*ast.Ident)
+	if !ok {
+		return nil
+	}
+	if o := p.TypesInfo.Uses[id]; o != nil {
+		return o
+	}
+	return p.TypesInfo.Defs[id]
+}
+
+func hyCallTo(e ast.Expr, name string) *ast.CallExpr {
+	c, ok := e.(*ast.CallExpr)
+	if !ok {
+		return nil
+	}
+	switch f := c.Fun.(type) {
+	case *ast.Ident:
+		if f.Name == name {
+			return c
+		}
+	case *ast.SelectorExpr:
+		if f.Sel.Name == name {
+			return c
+		}
+	case *ast.IndexExpr: // explicit instantiation mergeMaps[K, V](...)
+		if id, ok := f.X.(*ast.Ident); ok && id.Name == name {
+			return c
+		}
+	}
+	return nil
+}
+
+// hyLocalsFacts: the HCL-only conveniences of config/hcl.go as data
+func hyLocalsFacts(g *hyGen, p *packages.Package) string {
+	var b strings.Builder
+
+	// ---- buildHclContext: function table and variable root
+	var fnRows []string
+	root := ""
+	rootFromParam := false
+	if fd := findFunc(p, "buildHclContext"); fd == nil {
+		g.fail("buildHclContext not found")
+	} else {
+		var param types.Object
+		if fd.Type.Params != nil && len(fd.Type.Params.List) == 1 && len(fd.Type.Params.List[0].Names) == 1 {
+			param = p.TypesInfo.Defs[fd.Type.Params.List[0].Names[0]]
+		}
+		nCtx := 0
+		ast.Inspect(fd.Body, func(n ast.Node) bool {
+			cl, ok := n.(*ast.CompositeLit)
+			if !ok {
+				return true
+			}
+			tn, ok := p.TypesInfo.TypeOf(cl).(*types.Named)
+			if !ok || tn.Obj().Name() != "EvalContext" {
+				return true
+			}
+			nCtx++
+			for _, el := range cl.Elts {
+				kv, ok := el.(*ast.KeyValueExpr)
+				if !ok {
+					g.fail("buildHclContext: positional EvalContext literal")
+					continue
+				}
+				key := kv.Key.(*ast.Ident).Name
+				ml, ok := kv.Value.(*ast.CompositeLit)
+				if !ok {
+					g.fail("buildHclContext: %s is not a map literal", key)
+					continue
+				}
+				for _, me := range ml.Elts {
+					mkv, ok := me.(*ast.KeyValueExpr)
+					if !ok {
+						continue
+					}
+					tv := p.TypesInfo.Types[mkv.Key]
+					if tv.Value == nil || tv.Value.Kind() != constant.String {
+						g.fail("buildHclContext: %s key %s is not a string constant", key, hyNodeString(p, mkv.Key))
+						continue
+					}
+					name := constant.StringVal(tv.Value)
+					switch key {
+					case "Functions":
+						sel, ok := mkv.Value.(*ast.SelectorExpr)
+						if !ok {
+							g.fail("buildHclContext: function %q is bound to %s (expected a go-cty stdlib function)", name, hyNodeString(p, mkv.Value))
+							continue
+						}
+						obj := p.TypesInfo.Uses[sel.Sel]
+						if obj == nil || obj.Pkg() == nil || !strings.HasSuffix(obj.Pkg().Path(), "go-cty/cty/function/stdlib") {
+							g.fail("buildHclContext: function %q is bound to %s outside go-cty stdlib", name, hyNodeString(p, mkv.Value))
+							continue
+						}
+						fnRows = append(fnRows, fmt.Sprintf("(%q, %q)", name, sel.Sel.Name))
+					case "Variables":
+						if root != "" {
+							g.fail("buildHclContext: more than one variable root")
+						}
+						root = name
+						if c := hyCallTo(mkv.Value, "ObjectVal"); c != nil && len(c.Args) == 1 && param != nil && hyObj(p, c.Args[0]) == param {
+							rootFromParam = true
+						}
+					default:
+						g.fail("buildHclContext: EvalContext field %s", key)
+					}
+				}
+			}
+			return true
+		})
+		if nCtx != 1 {
+			g.fail("buildHclContext: expected exactly one EvalContext literal, found %d", nCtx)
+		}
+		if !rootFromParam {
+			g.fail("buildHclContext: the variable root is not cty.ObjectVal(<the parameter>)")
+		}
+	}
+	sort.Strings(fnRows)
+
+	// ---- localsSchema: block types
+	var blockTypes []string
+	if fd := findFunc(p, "localsSchema"); fd == nil {
+		g.fail("localsSchema not found")
+	} else {
+		ast.Inspect(fd.Body, func(n ast.Node) bool {
+			kv, ok := n.(*ast.KeyValueExpr)
+			if !ok {
+				return true
+			}
+			if id, ok := kv.Key.(*ast.Ident); ok && id.Name == "Type" {
+				if tv := p.TypesInfo.Types[kv.Value]; tv.Value != nil && tv.Value.Kind() == constant.String {
+					blockTypes = append(blockTypes, constant.StringVal(tv.Value))
+				}
+			}
+			return true
+		})
+	}
+
+	// ---- mergeMaps(to, from): for k, v := range SRC { DST[k] = v }; return RET
+	shape := [3]int{-1, -1, -1}
+	if fd := findFunc(p, "mergeMaps"); fd == nil {
+		g.fail("mergeMaps not found")
+	} else {
+		var params []types.Object
+		for _, f := range fd.Type.Params.List {
+			for _, n := range f.Names {
+				params = append(params, p.TypesInfo.Defs[n])
+			}
+		}
+		idx := func(e ast.Expr) int {
+			o := hyObj(p, e)
+			for i, po := range params {
+				if o != nil && o == po {
+					return i
+				}
+			}
+			return -1
+		}
+		ok := len(params) == 2 && len(fd.Body.List) == 2
+		if ok {
+			rs, ok1 := fd.Body.List[0].(*ast.RangeStmt)
+			ret, ok2 := fd.Body.List[1].(*ast.ReturnStmt)
+			ok = ok1 && ok2 && len(rs.Body.List) == 1 && len(ret.Results) == 1 && rs.Key != nil && rs.Value != nil
+			if ok {
+				as, ok3 := rs.Body.List[0].(*ast.AssignStmt)
+				ok = ok3 && len(as.Lhs) == 1 && len(as.Rhs) == 1
+				if ok {
+					ix, ok4 := as.Lhs[0].(*ast.IndexExpr)
+					ok = ok4 && hyObj(p, ix.Index) != nil && hyObj(p, ix.Index) == hyObj(p, rs.Key) &&
+						hyObj(p, as.Rhs[0]) != nil && hyObj(p, as.Rhs[0]) == hyObj(p, rs.Value)
+					if ok {
+						shape = [3]int{idx(ix.X), idx(rs.X), idx(ret.Results[0])}
+					}
+				}
+			}
+		}
+		if !ok || shape[0] < 0 || shape[1] < 0 || shape[2] < 0 {
+			g.fail("mergeMaps: expected `for k, v := range P { Q[k] = v }; return R` over its two parameters")
+			shape = [3]int{9, 9, 9}
+		}
+	}
+
+	// ---- decodeLocals
+	mergeArgs := []string{"other", "other"}
+	accReassigned := false
+	ctxFrom := "other"
+	blockCtx := "other"
+	var blockFilter []string
+	if fd := findFunc(p, "decodeLocals"); fd == nil {
+		g.fail("decodeLocals not found")
+	} else {
+		var loop *ast.RangeStmt
+		var before []ast.Stmt
+		for _, st := range fd.Body.List {
+			if rs, ok := st.(*ast.RangeStmt); ok && loop == nil {
+				loop = rs
+				continue
+			}
+			if loop == nil {
+				before = append(before, st)
+			}
+		}
+		if loop == nil {
+			g.fail("decodeLocals: no range loop over the locals blocks")
+		} else {
+			// variables declared before the loop: the accumulator (a map literal) and the context (buildHclContext(acc))
+			var acc, ctx types.Object
+			for _, st := range before {
+				as, ok := st.(*ast.AssignStmt)
+				if !ok || len(as.Lhs) != 1 || len(as.Rhs) != 1 {
+					continue
+				}
+				if _, ok := as.Rhs[0].(*ast.CompositeLit); ok {
+					if _, isMap := p.TypesInfo.TypeOf(as.Rhs[0]).Underlying().(*types.Map); isMap && acc == nil {
+						acc = hyObj(p, as.Lhs[0])
+					}
+				}
+				if c := hyCallTo(as.Rhs[0], "buildHclContext"); c != nil && len(c.Args) == 1 && acc != nil && hyObj(p, c.Args[0]) == acc {
+					ctx = hyObj(p, as.Lhs[0])
+				}
+			}
+			if acc == nil || ctx == nil {
+				g.fail("decodeLocals: expected `vars := map…{}; hclContext := buildHclContext(vars)` before the loop")
+			}
+			var newVars types.Object
+			var mergeResult []types.Object // variables assigned from the mergeMaps call
+			nMerge, nCtx := 0, 0
+			ast.Inspect(loop.Body, func(n ast.Node) bool {
+				switch x := n.(type) {
+				case *ast.BinaryExpr:
+					if x.Op.String() == "==" {
+						if tv := p.TypesInfo.Types[x.Y]; tv.Value != nil && tv.Value.Kind() == constant.String {
+							if hyNodeString(p, x.X) == hyNodeString(p, loop.Value)+".Type" {
+								blockFilter = append(blockFilter, constant.StringVal(tv.Value))
+							}
+						}
+					}
+				case *ast.AssignStmt:
+					if len(x.Rhs) != 1 {
+						return true
+					}
+					if c := hyCallTo(x.Rhs[0], "decodeLocalBlock"); c != nil && len(x.Lhs) == 2 && len(c.Args) == 2 {
+						newVars = hyObj(p, x.Lhs[0])
+						if o := hyObj(p, c.Args[1]); o != nil && o == ctx {
+							blockCtx = "ctx"
+						}
+						if hyObj(p, c.Args[0]) == nil || hyObj(p, c.Args[0]) != hyObj(p, loop.Value) {
+							g.fail("decodeLocals: decodeLocalBlock is not called on the loop's block")
+						}
+					}
+					if c := hyCallTo(x.Rhs[0], "mergeMaps"); c != nil && len(x.Lhs) == 1 {
+						if o := hyObj(p, x.Lhs[0]); o != nil {
+							if o == acc {
+								accReassigned = true
+							}
+							mergeResult = append(mergeResult, o)
+						}
+					}
+					if c := hyCallTo(x.Rhs[0], "buildHclContext"); c != nil && len(x.Lhs) == 1 && len(c.Args) == 1 {
+						if o := hyObj(p, x.Lhs[0]); o == nil || o != ctx {
+							return true
+						}
+						nCtx++
+						switch {
+						case hyCallTo(c.Args[0], "mergeMaps") != nil:
+							ctxFrom = "merge-result"
+						case hyObj(p, c.Args[0]) != nil && hyObj(p, c.Args[0]) == acc:
+							ctxFrom = "acc"
+						default:
+							for _, o := range mergeResult {
+								if hyObj(p, c.Args[0]) == o {
+									ctxFrom = "merge-result"
+								}
+							}
+						}
+					}
+				case *ast.CallExpr:
+					if c := hyCallTo(x, "mergeMaps"); c != nil && len(c.Args) == 2 {
+						nMerge++
+						for i, a := range c.Args {
+							switch o := hyObj(p, a); {
+							case o != nil && o == acc:
+								mergeArgs[i] = "acc"
+							case o != nil && o == newVars:
+								mergeArgs[i] = "new"
+							}
+						}
+					}
+				}
+				return true
+			})
+			if nMerge != 1 || nCtx != 1 {
+				g.fail("decodeLocals: expected one mergeMaps call and one `hclContext = buildHclContext(…)` in the loop (found %d, %d)", nMerge, nCtx)
+			}
+			// the function returns the context variable
+			if last, ok := fd.Body.List[len(fd.Body.List)-1].(*ast.ReturnStmt); !ok || len(last.Results) < 1 || hyObj(p, last.Results[0]) != ctx {
+				g.fail("decodeLocals: does not end with `return hclContext, …`")
+			}
+		}
+	}
+
+	// ---- decodeLocalBlock: every attribute is evaluated under the context parameter and stored under its name
+	evalUnder := "other"
+	if fd := findFunc(p, "decodeLocalBlock"); fd == nil {
+		g.fail("decodeLocalBlock not found")
+	} else {
+		var ctxParam types.Object
+		if len(fd.Type.Params.List) == 2 && len(fd.Type.Params.List[1].Names) == 1 {
+			ctxParam = p.TypesInfo.Defs[fd.Type.Params.List[1].Names[0]]
+		}
+		nVal := 0
+		ast.Inspect(fd.Body, func(n ast.Node) bool {
+			if c, ok := n.(*ast.CallExpr); ok {
+				if sel, ok := c.Fun.(*ast.SelectorExpr); ok && sel.Sel.Name == "Value" && len(c.Args) == 1 {
+					nVal++
+					if o := hyObj(p, c.Args[0]); o != nil && o == ctxParam {
+						evalUnder = "param"
+					}
+				}
+			}
+			return true
+		})
+		if nVal != 1 {
+			g.fail("decodeLocalBlock: expected one Expr.Value(ctx) call, found %d", nVal)
+		}
+	}
+
+	// ---- ParseHCLFile: the body is decoded under the context decodeLocals returns
+	bodyCtx := "other"
+	var parseCalls []string
+	if fd := findFunc(p, "ParseHCLFile"); fd == nil {
+		g.fail("ParseHCLFile not found")
+	} else {
+		var localsCtx types.Object
+		ast.Inspect(fd.Body, func(n ast.Node) bool {
+			switch x := n.(type) {
+			case *ast.AssignStmt:
+				if len(x.Rhs) == 1 && hyCallTo(x.Rhs[0], "decodeLocals") != nil && len(x.Lhs) >= 1 {
+					localsCtx = hyObj(p, x.Lhs[0])
+				}
+			case *ast.CallExpr:
+				name := hyNodeString(p, x.Fun)
+				if !strings.HasPrefix(name, "fmt.") && !strings.HasPrefix(name, "errors.") {
+					parseCalls = append(parseCalls, name)
+				}
+				if c := hyCallTo(x, "DecodeBody"); c != nil && len(c.Args) == 3 {
+					if o := hyObj(p, c.Args[1]); o != nil && o == localsCtx {
+						bodyCtx = "locals-ctx"
+					}
+				}
+			}
+			return true
+		})
+	}
+
+	b.WriteString("/-- `buildHclContext`: HCL function name ↦ the go-cty stdlib function it is bound to (sorted by name) -/\n")
+	b.WriteString("def hclFunctions : List (String × String) := [\n  " + strings.Join(fnRows, ",\n  ") + "]\n\n")
+	b.WriteString("/-- `buildHclContext`: the variable under which the locals are visible (`cty.ObjectVal` of the map passed in) -/\n")
+	b.WriteString(fmt.Sprintf("def localsRoot : String := %q\n", root))
+	b.WriteString("/-- `localsSchema`: the block types taken out of the body before it is decoded -/\n")
+	b.WriteString("def localsBlockTypes : List String := " + hyStrList(blockTypes) + "\n")
+	b.WriteString("/-- `mergeMaps`: (parameter written to, parameter ranged over, parameter returned) -/\n")
+	b.WriteString(fmt.Sprintf("def mergeMapsShape : Nat × Nat × Nat := (%d, %d, %d)\n", shape[0], shape[1], shape[2]))
+	b.WriteString("/-- `decodeLocals`: the arguments of its `mergeMaps` call: \"acc\" = the map declared before the loop, \"new\" = the\nresult of `decodeLocalBlock` of this iteration -/\n")
+	b.WriteString("def localsMergeArgs : List String := " + hyStrList(mergeArgs) + "\n")
+	b.WriteString("/-- `decodeLocals`: the accumulator variable is reassigned from the result of `mergeMaps` -/\n")
+	b.WriteString(fmt.Sprintf("def localsAccReassigned : Bool := %v\n", accReassigned))
+	b.WriteString("/-- `decodeLocals`: what the context of the next iteration is built from: \"merge-result\" | \"acc\" -/\n")
+	b.WriteString(fmt.Sprintf("def localsCtxFrom : String := %q\n", ctxFrom))
+	b.WriteString("/-- `decodeLocals`: the context `decodeLocalBlock` gets: \"ctx\" = the context variable (locals of the previous blocks) -/\n")
+	b.WriteString(fmt.Sprintf("def localsBlockCtx : String := %q\n", blockCtx))
+	b.WriteString("/-- `decodeLocals`: the block types the loop handles -/\n")
+	b.WriteString("def localsBlockFilter : List String := " + hyStrList(blockFilter) + "\n")
+	b.WriteString("/-- `decodeLocalBlock`: the context every attribute is evaluated under: \"param\" = the one passed in -/\n")
+	b.WriteString(fmt.Sprintf("def localBlockEvalUnder : String := %q\n", evalUnder))
+	b.WriteString("/-- `ParseHCLFile`: the context of `gohcl.DecodeBody`: \"locals-ctx\" = what `decodeLocals` returned -/\n")
+	b.WriteString(fmt.Sprintf("def parseHclBodyCtx : String := %q\n", bodyCtx))
+	b.WriteString("/-- `ParseHCLFile`: the calls it makes, in source order (error constructors left out) -/\n")
+	b.WriteString("def parseHclCalls : List String := " + hyStrList(parseCalls) + "\n")
 	return b.String()
 }
